@@ -3,7 +3,8 @@ repository looks names up in; the repository's own wrappers (HmacPRF/_tls_p_hash
 contracts and IV handling, the hash wrapper, BitwiseFPEPRP's length checks, all schemes) run for real.
 
   hmac.new / hashlib.new   lazy random oracle (same (alg, key, msg) -> same output, else fresh coins)
-  cryptography Cipher      ideal cipher: ciphertext = fresh coins of the padded length, table (key, iv, ct) -> pt;
+  cryptography Cipher      ideal cipher in CBC mode: each block a lazily sampled random function of (key, chaining
+                           value, plaintext block), so equal (key, IV, plaintext) give equal ciphertexts;
                            decryption of an unknown triple raises ValueError (what PKCS7 unpadding of garbage does
                            with probability 255/256); AES(key) enforces the 16/24/32 key-size contract
   PKCS7 padder             pure Python, works on symbolic bytes
@@ -36,6 +37,9 @@ class World:
         self.hmac_sym = []    # the queries with a symbolic key or message (a concrete query may equal one of them)
         self.hash_q = []      # (alg, msg, out)
         self.enc = []         # (key, iv, ct, padded_plaintext)
+        self.blk = {}         # CBC block oracle: chaining value (concrete) -> [(key, plaintext block, output block)]
+        self.blk_sym = []     # (chaining value, key, plaintext block, output block) with a symbolic chaining value
+        self.blk_out = {}     # output block -> (key, chaining value, plaintext block)
         self.urandom_log = []  # values handed out by os.urandom, in order
         self.enc_calls = []   # (key, iv) per encryptor
         self.prp = {}         # (key, width) -> {x: y}
@@ -212,6 +216,48 @@ class HashlibShim:
 
 
 # ---------------------------------------------------------------- ideal cipher
+def _enc_block(key, prev, pb):
+    """one block of the ideal cipher in CBC mode: a lazily sampled random function of (key, chaining value, plaintext
+    block) - deterministic, so a repeated (key, IV) makes equal plaintext prefixes visible as equal ciphertext
+    prefixes, exactly what CBC does"""
+    if _real_bytes(prev):
+        lst = W.blk.setdefault(prev, [])
+        for (k, p, out) in lst:
+            if _eq(k, key) and _eq(p, pb):
+                return out
+        for (pv, k, p, out) in W.blk_sym:
+            if _eq(pv, prev) and _eq(k, key) and _eq(p, pb):
+                return out
+        out = W.fresh(16, b"e")
+        lst.append((key, pb, out))
+    else:
+        for pv, lst in W.blk.items():
+            for (k, p, out) in lst:
+                if _eq(pv, prev) and _eq(k, key) and _eq(p, pb):
+                    return out
+        for (pv, k, p, out) in W.blk_sym:
+            if _eq(pv, prev) and _eq(k, key) and _eq(p, pb):
+                return out
+        out = W.fresh(16, b"e")
+        W.blk_sym.append((prev, key, pb, out))
+    W.blk_out[out] = (key, prev, pb)
+    return out
+
+
+def _dec_block(key, prev, cb):
+    """inverse of _enc_block; an output block nobody produced under (key, chaining value) decrypts to garbage, which
+    the model turns into the unpadding failure it causes with probability 255/256"""
+    if _real_bytes(cb):
+        e = W.blk_out.get(cb)
+        cands = [e] if e is not None else []
+    else:
+        cands = [e for out, e in W.blk_out.items() if _eq(out, cb)]
+    for (k, pv, pb) in cands:
+        if _eq(k, key) and _eq(pv, prev):
+            return pb
+    raise ValueError("Invalid padding bytes.")
+
+
 class _Enc:
     def __init__(self, key, iv):
         self.key, self.iv = key, iv
@@ -219,7 +265,10 @@ class _Enc:
     def update(self, data):
         if len(data) % 16:
             raise ValueError("The length of the provided data is not a multiple of the block length.")
-        ct = W.fresh(len(data), b"e")
+        prev, ct = self.iv, b""
+        for i in range(0, len(data), 16):
+            prev = _enc_block(self.key, prev, data[i:i + 16])
+            ct += prev
         W.enc.append((self.key, self.iv, ct, data))
         W.enc_calls.append((self.key, self.iv))
         return ct
@@ -236,11 +285,16 @@ class _Dec:
     def update(self, ct):
         if len(ct) % 16:
             raise ValueError("The length of the provided data is not a multiple of the block length.")
+        # whole messages first (the common case, and the one that keeps symbolic plaintexts in one piece)
         for (k, iv, c, p) in W.enc:
             if len(c) == len(ct) and c == ct and _eq(k, self.key) and _eq(iv, self.iv):
                 return p
-        # ideal model: a wrong key / foreign ciphertext decrypts to garbage that fails to unpad
-        raise ValueError("Invalid padding bytes.")
+        prev, pt = self.iv, b""
+        for i in range(0, len(ct), 16):
+            cb = ct[i:i + 16]
+            pt += _dec_block(self.key, prev, cb)
+            prev = cb
+        return pt
 
     def finalize(self):
         return b""
